@@ -166,6 +166,27 @@ def run(prog, rep, tier):
     if not keep:
         rep.violation(R104, ER + "|keeps-ntf", "EvtxReader does not own the NamedTempFile (it would be deleted before parsing, or leak)")
 
+    # ------------------------------------------------------------ R10.9 lift of the window predicate rules (C03 R3.1/R3.2) at the evtx sites
+    import contextlib as _clA, io as _ioA
+    import c03 as _c03A
+    from common import Report as _RepA
+    R109 = rep.rule("R10.9", "the evtx window predicate accepts exactly A <= t <= B for every shape of (A, B) (from C03 R3.1/R3.2)")
+    _s3A = _RepA("C03", "quick", dict(rep.meta))
+    _s3A.finish = lambda *a, **k: 0
+    with _clA.redirect_stdout(_ioA.StringIO()):
+        _c03A.run(prog, _s3A, "quick")
+    nA = 0
+    for (rid_, key_, what_, det_) in _s3A.violations:
+        if rid_ in ("R3.1", "R3.1w", "R3.2") and ("evtx" in key_.lower() or "ts_pass_filters" in key_):
+            rep.violation(R109, key_.split("|", 1)[1], what_)
+    for rid_ in ("R3.1", "R3.1w", "R3.2"):
+        for k_ in sorted(_s3A.rules.get(rid_, {}).get("keys", ())):
+            if "evtx" in k_.lower() or "ts_pass_filters" in k_:
+                nA += 1
+                rep.examined(R109, "%s|%s" % (rid_, k_), sample={"rule": rid_, "instance": k_})
+    if nA < 1:
+        raise CheckerError("R10.9: no evtx instance among the C03 predicate rules")
+
     # ------------------------------------------------------------ R10.7 parser options that discard parsable records stay off
     # `ParserSettings::validate_checksums(true)` makes the evtx crate reject every 64 KiB chunk whose
     # stored CRC is stale - which is the normal state of a log copied while the event-log service had
@@ -196,11 +217,11 @@ def run(prog, rep, tier):
     _n = 0
     for _rid, _r in sorted(_sub.rules.items()):
         for _k in sorted(_r.get("keys", ())):
-            if "filedecompressor" in _k or "decompress_to_ntf" in _k:
+            if "filedecompressor" in _k or "decompress_to_ntf" in _k or "process_path_tar" in _k or _rid in ("R5.5", "R5.10"):
                 _n += 1
                 rep.examined(R106L, "%s|%s" % (_rid, _k), sample={"rule": _rid, "instance": _k})
     for (_rid, _key, _what, _detail) in _sub.violations:
-        if "filedecompressor" in _key or "decompress_to_ntf" in _key:
+        if "filedecompressor" in _key or "decompress_to_ntf" in _key or "process_path_tar" in _key or _rid in ("R5.5", "R5.10"):
             rep.violation(R106L, _key.split("|", 1)[1] + "|" + _rid, _what)
     if _n < 3:
         raise CheckerError("R10.6: only %d C05 instances at filedecompressor sites" % _n)
